@@ -302,6 +302,9 @@ def run(rep):
     if corr_bad and not rep.violations:
         rep.violation({'obligation': 'correspondence: a run over a population with defective messages does not follow Model.mainP',
                        'disagreements': len(corr_bad), 'examples': corr_bad[:6]}, False)
+    # ---- rule-shape family: the failing condition after a pass, in nested / break-ed blocks, in and/or/!, around attachment blocks ----
+    import c04shapes
+    rep.coverage['rule_shapes'] = c04shapes.stage(rep, tools, W)
     vlib.lean_conclude(rep)
     kinds = {}
     for r in results:
@@ -329,7 +332,12 @@ def run(rep):
 
 def replay(rep, path):
     import json
-    print(json.dumps(json.load(open(path)), indent=1)[:3000])
+    j = json.load(open(path))
+    print(json.dumps(j, indent=1)[:3000])
     sc = vlib.Scratch()
     vlib.lean_gate(rep, 'C04', sc, [])
+    if j.get('family') == 'rule-shape':
+        import c04shapes
+        tools = proc.Tools(sc)
+        c04shapes.replay(rep, tools, world.WorldCheck(sc, tools), j)
     rep.coverage.update({'evaluations': 1, 'distinct_nontrivial': 1})
